@@ -80,6 +80,7 @@ def plan(tier, seed):
     quick = tier != "thorough"
     head = [
         {"gen": "b_negauth_tls"},
+        {"gen": "e_names", "seed": seed},
         {"gen": "q_negauth", "kinds": ["rsa", "p256"]},
         {"gen": "q_negauth", "kinds": ["p384", "ed25519", "ed448"]},
     ]
@@ -116,6 +117,7 @@ def plan(tier, seed):
 
 
 def run_batch(batch):
+    from .. import c03_names as N
     from .. import c03_quic as Q
     from .. import c03_tls as T
 
@@ -125,6 +127,7 @@ def run_batch(batch):
         "c_matrix": Q.c_matrix,
         "q_negauth": Q.q_negauth,
         "d_initial_flip": Q.d_initial_flip,
+        "e_names": N.e_names,
     }
     res = Result()
     t0 = time.process_time()
